@@ -6,7 +6,8 @@ Require Import Grist.Lib.Fl64 Grist.Proofs.Fl64_proofs Grist.Proofs.Fl64_mono_pr
                Grist.Proofs.Sort_by_proofs Grist.Proofs.Relabel_ungroup_proofs Grist.Proofs.Relabel_check_proofs
                Grist.Proofs.Relabel_total_proofs Grist.Proofs.Relabel_renumber_proofs
                Grist.Proofs.Relabel_plain_proofs Grist.Proofs.Relabel_plain2_proofs Grist.Proofs.Relabel_guard_proofs
-               Grist.Proofs.Relabel_sparse_proofs Grist.Proofs.Relabel_spread_proofs Grist.Proofs.Relabel_levels_proofs.
+               Grist.Proofs.Relabel_sparse_proofs Grist.Proofs.Relabel_spread_proofs Grist.Proofs.Relabel_levels_proofs
+               Grist.Proofs.Relabel_getkey_proofs Grist.Proofs.Relabel_block_proofs Grist.Proofs.Relabel_widegap_proofs.
 Open Scope Z_scope.
 
 (* ---------------------------------------------------------------------------------------------- *)
@@ -482,6 +483,24 @@ Proof.
     apply IH; [lia | lia | exact Hvt |]. replace (S s + length vt)%nat with (s + S (length vt))%nat by lia. exact Hr.
 Qed.
 
+Lemma run_sorted vs : forall s rest, StronglySorted idx_lt rest -> Forall (fun q => Z.of_nat (s + length vs) <= fst q) rest ->
+  StronglySorted idx_lt (combine (map Z.of_nat (seq s (length vs))) vs ++ rest).
+Proof.
+  induction vs as [|v vt IH]; intros s rest Hs Hr; cbn [length seq map combine app]; [exact Hs|].
+  constructor.
+  - apply IH; [exact Hs|]. rewrite Forall_forall in *. intros q Hq. specialize (Hr q Hq). cbn [length] in Hr. lia.
+  - rewrite Forall_forall in *. intros q Hq. unfold idx_lt. cbn [fst]. apply in_app_or in Hq. destruct Hq as [Hq|Hq].
+    + destruct q as [qi qv]. apply in_combine_l in Hq. apply in_map_iff in Hq. destruct Hq as (j & <- & Hj). apply in_seq in Hj. cbn [fst]. lia.
+    + specialize (Hr q Hq). cbn [length] in Hr. lia.
+Qed.
+
+Lemma run_range (vs : list fl) n0 : forall s, Z.of_nat (s + length vs) <= n0 ->
+  Forall (fun q : Z * fl => 0 <= fst q < n0) (combine (map Z.of_nat (seq s (length vs))) vs).
+Proof.
+  intros s Hs. rewrite Forall_forall. intros [qi qv] Hq. apply in_combine_l in Hq. apply in_map_iff in Hq.
+  destruct Hq as (j & <- & Hj). apply in_seq in Hj. cbn [fst]. lia.
+Qed.
+
 Section Single.
 Variables (orig keys : list fl) (g : nat).
 Let n := length orig.
@@ -624,18 +643,18 @@ Qed.
 Lemma rows_strict i j : (i < j < n)%nat -> flt (nth i orig FNaN) (nth j orig FNaN) = true.
 Proof. intros Hij. apply (StronglySorted_nth _ FNaN _ Hstrict). fold n. exact Hij. Qed.
 
-Lemma renumber_state r w2 :
+Lemma renumber_state r :
   0 < count_range orig (mkwl [] R) b e ->
   find_sparse_enough_range orig (mkwl [] R) b e = Ok r ->
-  adjust_range orig (mkwl [] R) (fst r) (snd r) = Ok w2 ->
   exists (ab ae : nat) (NK : list fl) (rb re : Z),
+    (g = 0%nat -> rb = 0) /\
     (ab <= g <= ae)%nat /\ (ae <= n)%nat /\
     (forall j, (j < ab)%nat -> flt (nth j orig FNaN) (FFin false rb) = true) /\
     (forall j, (ae <= j < n)%nat -> flt (nth j orig FNaN) (FFin false re) = false) /\
     StronglySorted Flt (FFin false rb :: NK ++ [FFin false re]) /\ Forall posfin NK /\ length NK = (ae - ab + c)%nat /\
-    w2 = mkwl (AD R NK ab g ae) (firstn c (skipn (g - ab) NK)).
+    adjust_range orig (mkwl [] R) (fst r) (snd r) = Ok (mkwl (AD R NK ab g ae) (firstn c (skipn (g - ab) NK))).
 Proof.
-  intros Hcnt Hfind Hadj.
+  intros Hcnt Hfind.
   destruct R_facts as (ub & ue & Hb & He & HRl & HRin & HRs & Hlim & Hubue).
   destruct b_shape as (ub' & Hb' & Hub & Hbw & Hbrep & Hbcase). rewrite Hb in Hb'. inversion Hb'; subst ub'. clear Hb'.
   destruct e_shape as (ue' & He' & Hue & Hecase). rewrite He in He'. inversion He'; subst ue'. clear He'.
@@ -659,7 +678,7 @@ Proof.
   rewrite Hb in Hr. cbn [range_around_float] in Hr.
   destruct (range_around ub (Z.of_nat a)) as [r0|] eqn:Era; [|discriminate]. inversion Hr; subst r0. clear Hr.
   destruct (levels_keys_strict ub a frac cnt ltac:(lia) Hbrep ltac:(lia) Hf ltac:(lia) Hthr)
-    as (rb & re & Hra & Hin & HNKs & HNKp).
+    as (rb & re & Hra & Hrb0 & Hin & HNKs & HNKp).
   rewrite Era in Hra. inversion Hra; subst r. clear Hra. cbn [fst snd] in *.
   set (rbf := FFin false rb) in *. set (ref := FFin false re) in *.
   set (ab := Z.to_nat (bkl orig rbf)). set (ae := Z.to_nat (bkl orig ref)).
@@ -692,8 +711,9 @@ Proof.
         apply flt_iff in Hlt. unfold rbf in Hlt. cbn [ford] in Hlt. lia.
       + assert (Z.of_nat (g - 1) < bkl orig ref); [|unfold ae; lia].
         apply (bkl_iff orig ref (g - 1) rows_sorted Hqn2 ltac:(fold n; lia)). rewrite Hrowb.
-        apply flt_iff. unfold ref. cbn [is_nan ford]. repeat split; auto. lia. }
+        apply flt_iff. unfold ref. cbn [is_nan ford]. repeat split; auto; lia. }
   exists ab, ae, (get_range rbf ref cnt), rb, re.
+  split; [intros Hg0; destruct Hbcase as [[_ Hu0]|[Hg1 _]]; lia|].
   assert (HNKl : length (get_range rbf ref cnt) = (ae - ab + c)%nat).
   { unfold get_range. rewrite map_length, zrange_length. rewrite Hcnt_eq, Hib, Hie, HRl. unfold ab, ae. lia. }
   split; [exact Hidx|]. split; [unfold ae; lia|].
@@ -709,8 +729,7 @@ Proof.
     induction l as [|x t IH]; intros H; [constructor|]. cbn [app] in H. inversion H as [|? ? H1 H2]; subst.
     constructor; [apply IH; exact H1|]. rewrite Forall_forall in *. intros z Hz. apply H2. apply in_or_app. left. exact Hz. }
   pose proof (adjust_range_noadj orig R (get_range rbf ref cnt) ab g ae rbf ref) as Hadj'.
-  rewrite HRl in Hadj'. rewrite Hadj' in Hadj.
-  - inversion Hadj. reflexivity.
+  rewrite HRl in Hadj'. apply Hadj'.
   - split; [exact Hidx | unfold ae; fold n; lia].
   - unfold ab. lia.
   - unfold ae. lia.
@@ -864,18 +883,288 @@ Proof.
     assert (Hkn : is_nan (nth k keys FNaN) = false) by (rewrite Forall_forall in Hnn_k; apply Hnn_k; exact Hkey).
     pose proof (bkl_iff orig (nth k keys FNaN) i rows_sorted Hkn ltac:(fold n; lia)) as Hiff.
     rewrite (Hgroup _ Hkey) in Hiff. unfold val.
-    destruct (flt (nth i orig FNaN) (nth k keys FNaN)) eqn:E.
-    + assert (Hig : (i < g)%nat) by (apply Hiff in E; lia).
+    destruct (Nat.lt_ge_cases i g) as [Hig|Hig].
+    + replace (flt (nth i orig FNaN) (nth k keys FNaN)) with true by (symmetry; apply Hiff; lia).
       destruct (Nat.ltb_spec i ab); [|destruct (Nat.ltb_spec i g); [|lia]].
       * eapply flt_trans; [apply Hbelow; lia | apply NK_gt_rb; lia].
       * apply NK_lt. lia.
-    + assert (Hig : (g <= i)%nat).
-      { destruct (Nat.le_gt_cases g i) as [H|H]; [exact H|]. assert (Z.of_nat i < Z.of_nat g) by lia.
-        apply Hiff in H0. congruence. }
+    + replace (flt (nth i orig FNaN) (nth k keys FNaN)) with false.
+      2:{ symmetry. destruct (flt (nth i orig FNaN) (nth k keys FNaN)) eqn:E; [|reflexivity]. destruct Hiff as [Hi1 _]. specialize (Hi1 eq_refl). lia. }
       destruct (Nat.ltb_spec i ab); [lia|]. destruct (Nat.ltb_spec i g); [lia|]. destruct (Nat.ltb_spec i ae).
       * apply NK_lt. lia.
       * eapply flt_fle_trans; [apply NK_lt_re; lia | apply above_le; lia].
   - intros k1 k2 Hk1 Hk2 Hreq. apply (ungroup_order keys Hnn_k NK2 Hl2 NK2_sorted); assumption.
 Qed.
+
+Lemma AD_sorted : StronglySorted idx_lt (AD R NK ab g ae) /\ Forall (fun q => 0 <= fst q < lenZ orig) (AD R NK ab g ae).
+Proof.
+  destruct lens as (Hl1 & Hl3 & _). unfold AD. cbv zeta.
+  replace (length R) with c by (destruct R_facts as (? & ? & _ & _ & H & _); symmetry; exact H). fold NK1 NK3.
+  split.
+  - rewrite <- Hl1 at 1. apply run_sorted.
+    + rewrite <- (app_nil_r (combine (map Z.of_nat (seq g (ae - g))) NK3)). rewrite <- Hl3 at 1. apply run_sorted; constructor.
+    + rewrite Forall_forall. intros [qi qv] Hq. apply in_combine_l in Hq. apply in_map_iff in Hq. destruct Hq as (j & <- & Hj).
+      apply in_seq in Hj. cbn [fst]. lia.
+  - apply Forall_app. split.
+    + rewrite <- Hl1 at 1. apply run_range. unfold lenZ. fold n. lia.
+    + rewrite <- Hl3 at 1. apply run_range. unfold lenZ. fold n. lia.
+Qed.
+
+Lemma get_key_val j : (j < n)%nat -> adj_get_key orig (mkwl (AD R NK ab g ae) NK2) (Z.of_nat j) = val j.
+Proof.
+  intros Hj. destruct AD_sorted as [Hs Hr]. rewrite (adj_get_key_virtual orig _ NK2 j Hs Hr ltac:(fold n; exact Hj)).
+  apply V2_nth. exact Hj.
+Qed.
+
+(* the final assertion of prep_inserts_at_index holds in the renumbered state *)
+Lemma final_assert_ok : (g < n)%nat -> (g = 0%nat -> rb = 0) ->
+  let w2 := mkwl (AD R NK ab g ae) NK2 in
+  let b2 := if 0 <? Z.of_nat g then adj_get_key orig w2 (Z.of_nat g - 1) else b in
+  let e2 := if Z.of_nat g <? lenZ orig then adj_get_key orig w2 (Z.of_nat g) else e in
+  is_valid_range b2 (sl_irange (inss w2) b2 e2) e2 = true.
+Proof.
+  intros Hgn Hg0 w2 b2 e2. destruct lens as (Hl1 & Hl3 & Hl2). pose proof c_pos as Hc.
+  assert (He2 : e2 = val g).
+  { unfold e2. replace (Z.of_nat g <? lenZ orig) with true by (symmetry; apply Z.ltb_lt; unfold lenZ; fold n; lia).
+    apply get_key_val. exact Hgn. }
+  assert (Hb2 : forall s, (s < c)%nat -> flt b2 (nth s NK2 FNaN) = true).
+  { intros s Hs. rewrite NK2_nth by exact Hs. unfold b2. destruct (Z.ltb_spec 0 (Z.of_nat g)) as [Hg|Hg].
+    - replace (Z.of_nat g - 1) with (Z.of_nat (g - 1)) by lia. unfold w2. rewrite get_key_val by lia. unfold val.
+      destruct (Nat.ltb_spec (g - 1) ab); [|destruct (Nat.ltb_spec (g - 1) g); [|lia]].
+      + eapply flt_trans; [apply Hbelow; lia | apply NK_gt_rb; lia].
+      + apply NK_lt. lia.
+    - assert (g = 0%nat) by lia. destruct b_shape as (ub & Hb & _ & _ & _ & [[_ Hu0]|[Hgp _]]); [|lia].
+      rewrite Hb, Hu0. pose proof (NK_gt_rb (g - ab + s) ltac:(lia)) as Hgt. unfold rbf in Hgt. rewrite (Hg0 H) in Hgt. exact Hgt. }
+  assert (He2' : forall s, (s < c)%nat -> flt (nth s NK2 FNaN) e2 = true).
+  { intros s Hs. rewrite NK2_nth by exact Hs. rewrite He2. unfold val.
+    destruct (Nat.ltb_spec g ab); [lia|]. destruct (Nat.ltb_spec g g); [lia|]. destruct (Nat.ltb_spec g ae).
+    - apply NK_lt. lia.
+    - eapply flt_fle_trans; [apply NK_lt_re; lia | apply above_le; lia]. }
+  assert (Hir : sl_irange (inss w2) b2 e2 = NK2).
+  { unfold w2. cbn [inss]. unfold sl_irange. apply filter_all. intros x Hx. destruct (In_nth _ _ FNaN Hx) as (s & Hs & <-).
+    rewrite Hl2 in Hs. apply andb_true_intro. split; apply flt_fle; auto. }
+  rewrite Hir. unfold is_valid_range. apply all_distinct_sorted. constructor.
+  - pose proof NK2_sorted as HS. clear Hir. revert HS He2'. rewrite <- Hl2. generalize NK2 as l.
+    induction l as [|x l IHl]; intros HS He; cbn [app]; [repeat constructor|].
+    inversion HS as [|? ? H1 H2]; subst. constructor.
+    + apply IHl; [exact H1|]. intros s Hs. apply (He (S s)). cbn [length]. lia.
+    + rewrite Forall_forall in *. intros y Hy. apply in_app_or in Hy. destruct Hy as [Hy|[<-|[]]]; [apply H2; exact Hy|].
+      apply (He 0%nat). cbn [length]. lia.
+  - rewrite Forall_forall. intros y Hy. apply in_app_or in Hy. destruct Hy as [Hy|[<-|[]]].
+    + destruct (In_nth _ _ FNaN Hy) as (s & Hs & <-). rewrite Hl2 in Hs. apply Hb2. exact Hs.
+    + eapply flt_trans; [apply (Hb2 0%nat); lia | apply (He2' 0%nat); lia].
+Qed.
 End FromState.
+
+Theorem single_gap_correct adj ins : prepare_inserts_model orig keys = Ok (adj, ins) -> Spec orig keys adj ins.
+Proof.
+  unfold prepare_inserts_model. rewrite single_groups. cbn [fold_left bind fst snd]. rewrite prep_cases.
+  destruct (is_valid_range b R e) eqn:Ev.
+  - cbn [bind adjs inss]. intros H. inversion H; subst. apply valid_case. exact Ev.
+  - destruct (count_range orig (mkwl [] R) b e <=? 0) eqn:Ec; [cbn [bind]; discriminate|]. apply Z.leb_gt in Ec.
+    destruct (find_sparse_enough_range orig (mkwl [] R) b e) as [r|cf] eqn:Ef; cbn [bind]; [|discriminate].
+    destruct (renumber_state r Ec Ef) as (ab & ae & NK & rb & re & _ & Hidx & Hae & Hbelow & Habove & HNKs & HNKp & HNKl & Ea).
+    rewrite Ea. cbn [bind].
+    match goal with |- context [if ?t then Ok ?w else Err 2] => destruct t end; cbn [bind]; [|discriminate].
+    intros H. inversion H; subst.
+    cbn [adjs inss]. apply (spec_from_state ab ae NK rb re); assumption.
+Qed.
+
+(* ---------------------------------------------------------------------------------------------- *)
+(* no exception: a range is found, for tables of fewer than 2^20 rows and a gap before an existing row *)
+
+Hypothesis Hfew : lenZ orig + lenZ keys < 2 ^ 20.
+Hypothesis Hgn : (g < n)%nat.
+
+Lemma thr130_55 : flt (fint (2 ^ 20)) (thr f130 55) = true.
+Proof. vm_compute. reflexivity. Qed.
+
+Lemma invalid_narrow ub ue : b = FFin false ub -> e = FFin false ue -> is_valid_range b R e = false ->
+  ue < 2 ^ 54 \/ ue < 4 * ub.
+Proof.
+  intros Hb He Hinv. destruct (Z.lt_ge_cases ue (2 ^ 54)) as [H1|H1]; [left; exact H1|].
+  destruct (Z.lt_ge_cases ue (4 * ub)) as [H2|H2]; [right; exact H2|]. exfalso.
+  destruct b_shape as (ub' & Hb' & Hub & Hbw & Hbrep & _). rewrite Hb in Hb'. inversion Hb'; subst ub'.
+  destruct e_shape as (ue' & He' & Hue & Hecase). rewrite He in He'. inversion He'; subst ue'.
+  assert (Hue_rep : ue mod 2 ^ ulp_exp ue = 0).
+  { destruct (orig_row g Hgn) as (u & Hu & _ & Hw). rewrite <- (Hecase Hgn), He in Hu. inversion Hu; subst u. destruct Hw as [_ Hd]. exact Hd. }
+  assert (Hub_rep : ub mod 2 ^ ulp_exp ub = 0).
+  { destruct (Z.eq_dec ub 0) as [->|H0]; [reflexivity | apply Hbrep; lia]. }
+  pose proof c_pos as Hc. unfold lenZ in Hfew. fold c in Hfew.
+  assert (HK24 : Z.of_nat c + 1 <= 2 ^ 24) by (assert (2 ^ 20 <= 2 ^ 24) by (apply Z.pow_le_mono_r; lia); lia).
+  pose proof (wide_gap_strict ub ue (Z.of_nat c) ltac:(lia) Hue_rep H1 H2 ltac:(lia) ltac:(lia) HK24) as Hs.
+  unfold R in Hinv. rewrite Hb, He in Hinv. unfold is_valid_range in Hinv. rewrite (all_distinct_sorted _ Hs) in Hinv. discriminate.
+Qed.
+
+Lemma range_total ub (a : nat) : 0 <= ub < 2 ^ 2086 -> (a < 64)%nat ->
+  exists rb re, range_around ub (Z.of_nat a) = Some (FFin false rb, FFin false re) /\ 0 <= rb <= ub /\ ub < re /\
+    (53 <= Z.of_nat a -> 0 < ub -> re = 2 ^ (if ub <? P52 then Z.of_nat a else Z.log2 ub + Z.of_nat a - 52)) /\
+    (ub = 0 -> re = 2 ^ (Z.of_nat a + 1021)).
+Proof.
+  intros Hu Ha. destruct (Z.eq_dec ub 0) as [->|H0].
+  - exists 0, (2 ^ (Z.of_nat a + 1021)). rewrite range_around_zero by lia. split; [reflexivity|].
+    assert (0 < 2 ^ (Z.of_nat a + 1021)) by (apply pow2_pos'; lia). repeat split; intros; (lia || reflexivity).
+  - destruct (Z.le_gt_cases 53 (Z.of_nat a)) as [Hh|Hl].
+    + destruct (range_around_high ub (Z.of_nat a) ltac:(lia) ltac:(lia) ltac:(lia)) as (Hr & HuT & HT).
+      eexists 0, _. split; [exact Hr|]. repeat split; intros; (lia || reflexivity).
+    + assert (Hov : 2 * ub < UOVER).
+      { rewrite UOVER_eq. apply Z.lt_le_trans with (2 ^ 2087).
+        - replace 2087 with (Z.succ 2086) by reflexivity. rewrite Z.pow_succ_r by lia. lia.
+        - apply Z.pow_le_mono_r; lia. }
+      pose proof (range_around_block ub (Z.of_nat a) ltac:(lia) ltac:(lia) Hov) as Hr.
+      destruct (block_facts ub (Z.of_nat a) ltac:(lia) ltac:(lia)) as (Ht & Hin & _ & _ & _ & _ & Hrb).
+      eexists _, _. split; [exact Hr|]. repeat split; intros; (lia || reflexivity).
+Qed.
+
+Lemma level_count_pos (a : nat) : is_valid_range b R e = false -> (a < 64)%nat ->
+  exists rb re, range_around_float b (Z.of_nat a) = Ok (FFin false rb, FFin false re) /\
+    0 < count_range orig (mkwl [] R) (FFin false rb) (FFin false re) /\
+    (forall ub, b = FFin false ub -> 0 <= rb <= ub /\ ub < re /\
+       (53 <= Z.of_nat a -> 0 < ub -> re = 2 ^ (if ub <? P52 then Z.of_nat a else Z.log2 ub + Z.of_nat a - 52)) /\
+       (ub = 0 -> re = 2 ^ (Z.of_nat a + 1021))).
+Proof.
+  intros Hinv Ha. destruct R_facts as (ub & ue & Hb & He & HRl & HRin & HRs & Hlim & Hubue).
+  destruct b_shape as (ub' & Hb' & Hub & Hbw & Hbrep & Hbcase). rewrite Hb in Hb'. inversion Hb'; subst ub'. clear Hb'.
+  destruct (range_total ub a Hub Ha) as (rb & re & Hra & Hrb & Hre & Hhigh & Hzero).
+  exists rb, re. split; [rewrite Hb; cbn [range_around_float]; rewrite Hra; reflexivity|].
+  split; [|intros ub2 Hb2; rewrite Hb in Hb2; inversion Hb2; subst ub2; auto].
+  set (rbf := FFin false rb). set (ref := FFin false re).
+  unfold count_range. rewrite !adj_bisect_noadj. cbn [inss].
+  assert (Hqn1 : is_nan rbf = false) by reflexivity. assert (Hqn2 : is_nan ref = false) by reflexivity.
+  assert (Hmono_o : bkl orig rbf <= bkl orig ref).
+  { apply bkl_mono. intros x _ Hx. apply flt_iff in Hx. apply flt_iff. unfold rbf, ref in *. cbn [is_nan ford] in *. intuition lia. }
+  assert (Hmono_R : bkl R rbf <= bkl R ref).
+  { apply bkl_mono. intros x _ Hx. apply flt_iff in Hx. apply flt_iff. unfold rbf, ref in *. cbn [is_nan ford] in *. intuition lia. }
+  destruct Hbcase as [[Hg0 Hu0]|[Hg1 Hbrow]].
+  - (* the gap before the first row: the first new key is counted *)
+    subst ub. assert (Hrb0 : rb = 0) by lia.
+    destruct (invalid_narrow 0 ue Hb He Hinv) as [Hn|Hn]; [|lia].
+    pose proof c_pos as Hc. destruct R as [|x t] eqn:ER; [cbn in HRl; lia|].
+    destruct (HRin x (or_introl eq_refl)) as (u & Hx & Hu).
+    assert (Hx1 : flt x rbf = false).
+    { rewrite Hx. unfold rbf. destruct (flt (FFin false u) (FFin false rb)) eqn:E; [|reflexivity]. apply flt_iff in E. cbn [ford] in E. lia. }
+    assert (Hx2 : flt x ref = true).
+    { rewrite Hx. apply flt_iff. unfold ref. cbn [is_nan ford]. repeat split; auto.
+      rewrite (Hzero eq_refl). assert (2 ^ 54 <= 2 ^ (Z.of_nat a + 1021)) by (apply Z.pow_le_mono_r; lia). lia. }
+    cbn [bkl]. rewrite Hx1, Hx2. pose proof (bkl_range t ref). lia.
+  - (* the row before the gap lies in the range *)
+    assert (Hrowb : nth (g - 1) orig FNaN = FFin false ub) by (rewrite <- Hbrow; exact Hb).
+    assert (H1 : ~ (Z.of_nat (g - 1) < bkl orig rbf)).
+    { intros Hlt. apply (bkl_iff orig rbf (g - 1) rows_sorted Hqn1 ltac:(fold n; lia)) in Hlt. rewrite Hrowb in Hlt.
+      apply flt_iff in Hlt. unfold rbf in Hlt. cbn [ford] in Hlt. lia. }
+    assert (H2 : Z.of_nat (g - 1) < bkl orig ref).
+    { apply (bkl_iff orig ref (g - 1) rows_sorted Hqn2 ltac:(fold n; lia)). rewrite Hrowb.
+      apply flt_iff. unfold ref. cbn [is_nan ford]. repeat split; auto; lia. }
+    lia.
+Qed.
+
+Lemma level55_ok : is_valid_range b R e = false -> level_ok orig (mkwl [] R) b e (thr f130 55) (Z.of_nat 55) = true.
+Proof.
+  intros Hinv. destruct (level_count_pos 55 Hinv ltac:(lia)) as (rb & re & Hr & Hcnt & Hfacts).
+  destruct R_facts as (ub & ue & Hb & He & HRl & _ & _ & _ & Hubue).
+  destruct (Hfacts ub Hb) as (Hrb & Hre & Hhigh & Hzero).
+  unfold level_ok. rewrite Hr. cbn [fst snd].
+  replace (0 <? count_range orig (mkwl [] R) (FFin false rb) (FFin false re)) with true by (symmetry; apply Z.ltb_lt; exact Hcnt).
+  cbn [andb]. apply andb_true_intro. split.
+  - (* end <= rend *)
+    rewrite He. apply fle_iff. cbn [is_nan ford]. repeat split; auto.
+    destruct (invalid_narrow ub ue Hb He Hinv) as [Hn|Hn].
+    + destruct (Z.eq_dec ub 0) as [E0|E0].
+      * rewrite (Hzero E0). assert (2 ^ 54 <= 2 ^ (Z.of_nat 55 + 1021)) by (apply Z.pow_le_mono_r; lia). lia.
+      * rewrite (Hhigh ltac:(lia) ltac:(lia)). rewrite P52_eq. destruct (Z.ltb_spec ub (2 ^ 52)) as [Hs|Hs].
+        -- assert (2 ^ 54 <= 2 ^ Z.of_nat 55) by (apply Z.pow_le_mono_r; lia). lia.
+        -- assert (52 <= Z.log2 ub) by (apply Z.log2_le_pow2; lia).
+           assert (2 ^ 54 <= 2 ^ (Z.log2 ub + Z.of_nat 55 - 52)) by (apply Z.pow_le_mono_r; lia). lia.
+    + assert (Hub0 : 0 < ub) by lia. rewrite (Hhigh ltac:(lia) Hub0). rewrite P52_eq. destruct (Z.ltb_spec ub (2 ^ 52)) as [Hs|Hs].
+      * assert (4 * 2 ^ 52 <= 2 ^ Z.of_nat 55) by (change (4 * 2 ^ 52) with (2 ^ 54); apply Z.pow_le_mono_r; lia). lia.
+      * pose proof (Z.log2_spec ub Hub0) as [_ L2].
+        assert (4 * 2 ^ Z.succ (Z.log2 ub) = 2 ^ (Z.log2 ub + Z.of_nat 55 - 52)).
+        { change 4 with (2 ^ 2). rewrite <- Z.pow_add_r by (pose proof (Z.log2_nonneg ub); lia). f_equal. lia. }
+        lia.
+  - (* the count is below 1.3^55 *)
+    set (cnt := count_range orig (mkwl [] R) (FFin false rb) (FFin false re)) in *.
+    assert (Hle : cnt <= 2 ^ 20).
+    { unfold cnt, count_range. rewrite !adj_bisect_noadj. cbn [inss].
+      pose proof (bkl_range orig (FFin false re)). pose proof (bkl_range orig (FFin false rb)).
+      pose proof (bkl_range R (FFin false re)). pose proof (bkl_range R (FFin false rb)). unfold lenZ in *. rewrite HRl in *. fold c in Hfew. lia. }
+    assert (H53 : 2 ^ 20 < 2 ^ 53) by (apply Z.pow_lt_mono_r; lia).
+    rewrite of_Z_int by lia. apply (fle_flt_trans _ (fint (2 ^ 20))); [|exact thr130_55].
+    rewrite fle_fint. apply Z.leb_le. exact Hle.
+Qed.
+
+Theorem single_gap_total : exists adj ins, prepare_inserts_model orig keys = Ok (adj, ins) /\ Spec orig keys adj ins.
+Proof.
+  unfold prepare_inserts_model. rewrite single_groups. cbn [fold_left bind fst snd]. rewrite prep_cases.
+  destruct (is_valid_range b R e) eqn:Ev.
+  - cbn [bind adjs inss]. eexists. eexists. split; [reflexivity|]. apply valid_case. exact Ev.
+  - (* the first assertion *)
+    destruct R_facts as (ub & ue & Hb & He & HRl & HRin & HRs & Hlim & Hubue).
+    destruct b_shape as (ub' & Hb' & Hub & Hbw & _ & _). rewrite Hb in Hb'. inversion Hb'; subst ub'. clear Hb'.
+    destruct e_shape as (ue' & He' & Hue & _). rewrite He in He'. inversion He'; subst ue'. clear He'.
+    pose proof c_pos as Hc. unfold lenZ in Hsmall. fold c in Hsmall.
+    assert (Hcnt : 0 < count_range orig (mkwl [] R) b e).
+    { pose proof (first_assert_guard orig [] false ub ue (Z.of_nat c)) as Hg. cbv zeta in Hg.
+      rewrite <- Hb, <- He in Hg. fold R in Hg. rewrite (sl_update_weak R []) in Hg by (cbn [app]; exact HRs). cbn [app] in Hg.
+      assert (Z.of_nat c <= count_range orig (mkwl [] R) b e); [|lia].
+      apply Hg; try (rewrite Hb in *; assumption); try lia.
+      - rewrite Hb. cbn [ford]. lia.
+      - intros x [].
+      - constructor. }
+    replace (count_range orig (mkwl [] R) b e <=? 0) with false by (symmetry; apply Z.leb_gt; exact Hcnt).
+    (* a range is found *)
+    destruct (find_sparse_finds orig (mkwl [] R) b e 55 ltac:(lia)) as (r & a & frac & Ha & Hf & Hfind & _ & _).
+    { intros a Ha. destruct (level_count_pos a Ev Ha) as (rb & re & Hr & Hc0 & _). unfold level_passes. rewrite Hr. cbn [fst snd].
+      apply Z.ltb_lt. exact Hc0. }
+    { exact (level55_ok Ev). }
+    rewrite Hfind. cbn [bind].
+    destruct (renumber_state r Hcnt Hfind) as (ab & ae & NK & rb & re & Hg0 & Hidx & Hae & Hbelow & Habove & HNKs & HNKp & HNKl & Ea).
+    rewrite Ea. cbn [bind].
+    pose proof (final_assert_ok ab ae NK rb re Hidx Hae Hbelow Habove HNKs HNKl Hgn Hg0) as Hfin. cbv zeta in Hfin.
+    rewrite Hfin. cbn [adjs inss]. eexists. eexists. split; [reflexivity|].
+    apply (spec_from_state ab ae NK rb re); assumption.
+Qed.
 End Single.
+
+(* the neighbours of a gap before an existing row are valid when the positions are *)
+Lemma gap_neighbours_valid orig (g : nat) cnt :
+  Forall (fun x => exists u, x = FFin false u /\ 0 < u < 2 ^ 2086) orig -> StronglySorted Flt orig -> (g < length orig)%nat ->
+  let b := group_begin orig (Z.of_nat g) in let e := group_end orig (Z.of_nat g) cnt in
+  flt b fzero || fle e fzero || is_inf (fmax b e) = false /\ flt b e = true.
+Proof.
+  intros Hvalid Hstrict Hg b e.
+  assert (Hrow : forall i, (i < length orig)%nat -> exists u, nth i orig FNaN = FFin false u /\ 0 < u).
+  { intros i Hi. rewrite Forall_forall in Hvalid. destruct (Hvalid _ (nth_In orig FNaN Hi)) as (u & Hu & Hb). exists u. split; [exact Hu | lia]. }
+  assert (He : exists ue, e = FFin false ue /\ 0 < ue).
+  { unfold e, group_end. replace (Z.of_nat g <? lenZ orig) with true by (symmetry; apply Z.ltb_lt; unfold lenZ; lia).
+    unfold nthZ. rewrite Nat2Z.id. apply Hrow. exact Hg. }
+  destruct He as (ue & He & Hue).
+  assert (Hb : exists ub, b = FFin false ub /\ 0 <= ub < ue).
+  { unfold b, group_begin. destruct g as [|g'].
+    - cbn [Z.of_nat Z.ltb Z.compare]. exists 0. split; [reflexivity | lia].
+    - replace (0 <? Z.of_nat (S g')) with true by (symmetry; apply Z.ltb_lt; lia). unfold nthZ.
+      replace (Z.to_nat (Z.of_nat (S g') - 1)) with g' by lia.
+      destruct (Hrow g' ltac:(lia)) as (u & Hu & Hu0). exists u. split; [exact Hu|]. split; [lia|].
+      pose proof (StronglySorted_nth _ FNaN _ Hstrict g' (S g') ltac:(lia)) as Hlt. unfold Flt in Hlt.
+      rewrite Hu in Hlt. unfold e, group_end in He. replace (Z.of_nat (S g') <? lenZ orig) with true in He by (symmetry; apply Z.ltb_lt; unfold lenZ; lia).
+      unfold nthZ in He. rewrite Nat2Z.id in He. rewrite He in Hlt. apply flt_iff in Hlt. cbn [ford] in Hlt. lia. }
+  destruct Hb as (ub & Hb & Hub). rewrite Hb, He. split.
+  - unfold flt, fle, fmax. cbn [is_nan negb andb ford fzero]. 
+    replace (ub <? 0) with false by (symmetry; apply Z.ltb_ge; lia). replace (ue <=? 0) with false by (symmetry; apply Z.leb_gt; lia).
+    cbn [orb]. destruct (flt (FFin false ub) (FFin false ue)); reflexivity.
+  - apply flt_iff. cbn [is_nan ford]. repeat split; auto; lia.
+Qed.
+
+(* total correctness for one gap before an existing row: no exception and Spec *)
+Theorem one_gap_total orig keys (g : nat) :
+  Pre orig keys -> Forall wf_fl orig ->
+  Forall (fun x => exists u, x = FFin false u /\ 0 < u < 2 ^ 2086) orig -> StronglySorted Flt orig ->
+  lenZ orig + lenZ keys < 2 ^ 20 -> keys <> [] ->
+  (forall k, In k keys -> bkl orig k = Z.of_nat g) -> (g < length orig)%nat ->
+  exists adj ins, prepare_inserts_model orig keys = Ok (adj, ins) /\ Spec orig keys adj ins.
+Proof.
+  intros HPre Hwf Hvalid Hstrict Hfew Hk Hgroup Hg.
+  destruct (gap_neighbours_valid orig g (Z.of_nat (length keys)) Hvalid Hstrict Hg) as [Hcond Hbe].
+  assert (Hsmall : lenZ orig + lenZ keys + 1 < 2 ^ 53).
+  { assert (2 ^ 20 + 1 < 2 ^ 53) by (apply Z.ltb_lt; reflexivity). lia. }
+  exact (single_gap_total orig keys g HPre Hwf Hvalid Hstrict Hsmall Hk Hgroup Hcond Hbe Hfew Hg).
+Qed.
